@@ -522,6 +522,34 @@ def coverage(S):
 # ------------------------------------------------------------------------------------------
 
 
+class ReplayTimeout(Exception):
+    pass
+
+
+def limited(fn, seconds=3):
+    """run a native replay with a wall-clock limit (a mutated loop may not terminate)"""
+    import signal
+
+    def on_alarm(signum, frame):
+        raise ReplayTimeout()
+
+    def wrapped(inputs, ob):
+        try:
+            old = signal.signal(signal.SIGALRM, on_alarm)
+        except ValueError:  # not in the main thread
+            return fn(inputs, ob)
+        signal.setitimer(signal.ITIMER_REAL, seconds)
+        try:
+            return fn(inputs, ob)
+        except ReplayTimeout:
+            return ReplayResult(False, f"native replay did not terminate within {seconds}s (termination is not part of the property)")
+        finally:
+            signal.setitimer(signal.ITIMER_REAL, 0)
+            signal.signal(signal.SIGALRM, old)
+
+    return wrapped
+
+
 def build_pool(inputs):
     """A real WorkerPool whose idle table has len(lens) keys with lens[i] fake workers each."""
     def num(x, default=0):
@@ -634,7 +662,7 @@ def replay_borrow(inputs, ob):
         pool.close()
 
 
-@unit("C32.O2 _borrow", targets=["vgi_rpc/pool.py::WorkerPool._borrow"], replay=replay_borrow, min_obligations=20)
+@unit("C32.O2 _borrow", targets=["vgi_rpc/pool.py::WorkerPool._borrow"], replay=limited(replay_borrow), min_obligations=20)
 def borrow(S):
     M = Model(S, 1)
     v0 = M.v0
@@ -651,7 +679,7 @@ def borrow(S):
     spawns = S.events("spawn")
     S.inputs["dead"] = bool(polls and not polls[0][2])
     S.oblige("O2.at_most_one_entry_leaves_the_table", len(removed) <= 1 and not S.events("idle_add") and not S.events("idle_clear"), kind="trace")
-    S.oblige("O2.total_tracks_the_removal", v1.total == v0.total - len(removed))
+    oblige_qf(S, "O2.total_tracks_the_removal", v1.total == v0.total - len(removed))
     # the table: unchanged, or the borrowed key dropped because its queue became empty
     if removed:
         p = SInt(z3.Int(S.fresh_name("kp")))
@@ -671,7 +699,7 @@ def borrow(S):
         S.oblige("O2.borrowed_transport_not_held_by_anyone_else", Not(SBool(M.owned0(tid))))
         S.oblige("O2.borrowed_transport_is_not_idle_afterwards", v1.not_idle(tid))
         S.oblige("O2.borrowed_transport_is_not_closed", Not(SBool(M.closed_after()(tid))))
-        S.oblige("O2.active_incremented", M.field("_active") == M.active0 + 1)
+        oblige_qf(S, "O2.active_incremented", M.field("_active") == M.active0 + 1)
         if spawns:
             S.oblige("O2.spawned_outside_the_lock", spawns[0][2] is False, kind="lock")
             S.oblige("O2.spawned_transport_is_the_result", spawns[0][1].t is tid or z3.eq(spawns[0][1].t, tid), kind="post")
@@ -682,7 +710,7 @@ def borrow(S):
             S.oblige("O2.reused_transport_polled_alive_under_lock", len(alive) >= 1, kind="trace")
     else:
         S.oblige("O2.raises_only_OSError_from_spawn", exc_is(out.exc, OSError) and len(S.events("spawn_failed")) == 1, kind="raises")
-        S.oblige("O2.active_restored_when_spawn_fails", M.field("_active") == M.active0)
+        oblige_qf(S, "O2.active_restored_when_spawn_fails", M.field("_active") == M.active0)
     # a dead idle worker is discarded: removed from the table and closed, never handed out
     for e in polls:
         if e[2] is False:
@@ -733,7 +761,7 @@ def replay_evict(inputs, ob):
         pool.close()
 
 
-@unit("C32.O4 _evict_oldest_locked", targets=["vgi_rpc/pool.py::WorkerPool._evict_oldest_locked"], replay=replay_evict, min_obligations=10)
+@unit("C32.O4 _evict_oldest_locked", targets=["vgi_rpc/pool.py::WorkerPool._evict_oldest_locked"], replay=limited(replay_evict), min_obligations=10)
 def evict(S):
     M = Model(S, 1)
     v0 = M.v0
@@ -769,10 +797,10 @@ def evict(S):
             return
         tid = t.fields["tid"].t
         S.oblige("O4.exactly_one_entry_removed_and_returned", len(removed) == 1 and z3.eq(removed[0][1].t, tid), kind="trace")
-        S.oblige("O4.total_decremented", v1.total == v0.total - 1)
+        oblige_qf(S, "O4.total_decremented", v1.total == v0.total - 1)
         S.oblige("O4.evicted_transport_is_not_idle_afterwards", v1.not_idle(tid))
         S.oblige("O4.evicted_transport_was_unowned_and_open", And(Not(SBool(M.owned0(tid))), Not(SBool(M.closed0(tid)))))
-        S.oblige("O4.eviction_counted", M.field("_evictions_max") == ev0 + 1)
+        oblige_qf(S, "O4.eviction_counted", M.field("_evictions_max") == ev0 + 1)
         S.lemma("O4.evicted_entry_sat_in_a_table_queue", ExistsInt(lambda q: And(q >= 0, q < v0.n, SBool(M.slot0(tid) == v0.dq(q)))))
         p = SInt(z3.Int(S.fresh_name("kp")))  # skolem witness of the lemma just proved
         S.assume(And(p >= 0, p < v0.n, SBool(M.slot0(tid) == v0.dq(p))))
@@ -818,7 +846,7 @@ def replay_return(inputs, ob):
         pool.close()
 
 
-@unit("C32.O3 _return_worker", targets=["vgi_rpc/pool.py::WorkerPool._return_worker"], replay=replay_return, min_obligations=30)
+@unit("C32.O3 _return_worker", targets=["vgi_rpc/pool.py::WorkerPool._return_worker"], replay=limited(replay_return), min_obligations=30)
 def return_worker(S):
     # proc.args a sequence (key = tuple of its strs) is explored on the keep path only; a str on all paths
     variant = S.choose(3, "args=str,pool open / args=str,pool closed / args=sequence,keep path")
@@ -874,12 +902,12 @@ def return_worker(S):
     if out.raised:
         # only an unsuppressed transport.close() of the discarded worker may fail (caught by _PooledTransport.close, O7)
         S.oblige("O3.raises_only_from_closing_the_discarded_worker", exc_is(out.exc, OSError) and any(c[3] is False and z3.eq(c[1].t, tid.t) for c in closes), kind="raises")
-    S.oblige("O3.active_decremented", M.field("_active") == M.active0 - 1)
+    oblige_qf(S, "O3.active_decremented", M.field("_active") == M.active0 - 1)
     own_closes = [c for c in closes if z3.eq(c[1].t, tid.t)]
     slot1, pos1 = M.slot0, M.pos0
     if adds:
         S.oblige("O3.only_the_returned_worker_becomes_idle", len(adds) == 1 and z3.eq(adds[0][1].t, tid.t), kind="trace")
-        S.oblige("O3.kept_only_if_alive_at_message_boundary_and_pool_open", And(Not(stream_opened), not dead, not pool_closed))
+        oblige_qf(S, "O3.kept_only_if_alive_at_message_boundary_and_pool_open", And(Not(stream_opened), not dead, not pool_closed))
         S.oblige("O3.kept_worker_is_not_closed", len(own_closes) == 0, kind="trace")
         d_add, a_add = adds[0][3].t, adds[0][4].t
         slot1 = lambda x: z3.If(x == tid.t, d_add, M.slot0(x))  # noqa: E731
@@ -890,7 +918,7 @@ def return_worker(S):
         oblige_qf(S, "O3.discarded_only_if_dead_abandoned_pool_closed_or_no_room_at_all", Or(stream_opened, dead, pool_closed, M.max_idle == 0))
         S.oblige("O3.discarded_worker_is_closed", len(own_closes) >= 1, kind="trace")
         S.oblige("O3.discarded_worker_is_not_idle", v1.not_idle(tid.t))
-    S.oblige("O3.abandoned_dead_or_late_worker_never_becomes_idle", Implies(Or(stream_opened, dead, pool_closed), len(adds) == 0))
+    oblige_qf(S, "O3.abandoned_dead_or_late_worker_never_becomes_idle", Implies(Or(stream_opened, dead, pool_closed), len(adds) == 0))
     S.oblige("O3.at_most_one_eviction", len(removed) <= 1 and not S.events("idle_clear"), kind="trace")
     for c in closes:
         if not z3.eq(c[1].t, tid.t):
@@ -940,7 +968,7 @@ def replay_pooled_close(inputs, ob):
     return ReplayResult(bool(problems), f"_PooledTransport.close() twice with {inputs}: " + "; ".join(problems))
 
 
-@unit("C32.O7 _PooledTransport.close", targets=["vgi_rpc/pool.py::_PooledTransport.close"], replay=replay_pooled_close, min_obligations=8)
+@unit("C32.O7 _PooledTransport.close", targets=["vgi_rpc/pool.py::_PooledTransport.close"], replay=limited(replay_pooled_close), min_obligations=8)
 def pooled_close(S):
     opened = S.bool("stream_opened")
     ls_mode = ["none", "closed", "open"][S.choose(3, "last session")]
@@ -1065,7 +1093,7 @@ def replay_close(inputs, ob):
         pool._closed = True
 
 
-@unit("C32.O6 close", targets=["vgi_rpc/pool.py::WorkerPool.close"], replay=replay_close, min_obligations=10)
+@unit("C32.O6 close", targets=["vgi_rpc/pool.py::WorkerPool.close"], replay=limited(replay_close), min_obligations=10)
 def pool_close(S):
     import atexit
 
@@ -1157,7 +1185,7 @@ def replay_reap(inputs, ob):
         pool.close()
 
 
-@unit("C32.O5 _reap_expired", targets=["vgi_rpc/pool.py::WorkerPool._reap_expired"], replay=replay_reap, min_obligations=20)
+@unit("C32.O5 _reap_expired", targets=["vgi_rpc/pool.py::WorkerPool._reap_expired"], replay=limited(replay_reap), min_obligations=20)
 def reap(S):
     M = Model(S, 1)
     v0 = M.v0
